@@ -284,6 +284,9 @@ Loop:
 		// find if there's wildcard
 		re := regexp.MustCompile(`(\w+)(\*|\+|\?)?`)
 		matches := re.FindStringSubmatch(t)
+		if matches == nil {
+			return zerr.UnexpectedParamWildcard()
+		}
 		// match: [_, name, wildcard]
 		switch matches[2] {
 		// matches 0 or more params
@@ -309,6 +312,9 @@ Loop:
 				return zerr.UnexpectedParamWildcard()
 			}
 		default:
+			if idx >= len(values) {
+				return zerr.LeastParamsError(idx + 1)
+			}
 			if err := validateOneParam(values[idx], t); err != nil {
 				return err
 			}
